@@ -437,6 +437,7 @@ func runStk(c *Ctx) {
 			}()
 			if panicked {
 				obs.WriteString(" panic")
+				c.Count("ends-in-panic")
 				break
 			}
 			idx, lim, nd := s.State()
